@@ -16,7 +16,11 @@ Verdict(c) ==
       raised == { i \in DOMAIN ev : ev[i].out # "ok" /\ ev[i].out # c.firstout[ev[i].q] }
       diverged == { i \in DOMAIN ev : ev[i].out = "ok" /\ c.firstout[ev[i].q] = "ok" /\ ev[i].res # c.first[ev[i].q] }
       drift == { i \in DOMAIN ev : i > 1 /\ ev[i].pre # ev[i - 1].post }
-  IN IF mutated # {} THEN [v |-> "QueryLeavesItsArgumentsUnchanged", tags |-> <<ev[Min(mutated)].q, ev[Min(mutated)].what>>]
+      \* the snapshot also holds the process-wide state a query could disturb (autograd mode, default dtype, the
+      \* constants a fresh semiring hands out): ev.what names the first component that differs
+      glob(i) == Len(ev[i].what) >= 7 /\ SubSeq(ev[i].what, 1, 7) = "globals"
+  IN IF mutated # {} THEN [v |-> IF glob(Min(mutated)) THEN "QueryLeavesGlobalStateUnchanged" ELSE "QueryLeavesItsArgumentsUnchanged",
+                           tags |-> <<ev[Min(mutated)].q, ev[Min(mutated)].what>>]
      ELSE IF drift # {} THEN [v |-> "HarnessSnapshotInconsistent", tags |-> <<>>]
      ELSE IF raised # {} THEN [v |-> "SameOutcomeInAnyInterleaving", tags |-> <<ev[Min(raised)].q>>]
      ELSE IF diverged # {} THEN [v |-> "SameResultInAnyInterleaving", tags |-> <<ev[Min(diverged)].q>>]
